@@ -19,7 +19,17 @@ def main():
         with open(args.replay) as f:
             rep = json.load(f)
         sys.exit(mod.replay(rep))
-    sys.exit(mod.main(args.tier, seed))
+    try:
+        rc = mod.main(args.tier, seed)
+    except SystemExit:
+        raise
+    except BaseException:
+        import traceback
+        traceback.print_exc()
+        sys.stderr.write('HARNESS-ERROR: uncaught exception in the check driver\n')
+        sys.stdout.flush()
+        os._exit(2)
+    sys.exit(rc)
 
 
 if __name__ == '__main__':
